@@ -13,7 +13,7 @@ U32, U64 = 2 ** 32, 2 ** 64
 def world():
     w = {'__bases__': {}}
     for cls in ('MovieFragmentHeaderBox', 'MovieExtendsHeaderBox', 'TrackExtendsBox', 'TrackFragmentDecodeTimeBox',
-                'TrackFragmentHeaderBox'):
+                'TrackFragmentHeaderBox', 'TrackFragmentRunBox'):
         w['__bases__'][cls] = ['FullBox']
     w['__bases__']['FullBox'] = ['Mp4Atom']
     w['__ctors__'] = {
@@ -41,7 +41,7 @@ def box_contract(cls, fields, requires, version_values=(0, 1), extra_env=None, r
     def sequel_env(eng, env_after, value):
         t = env_after['dest']
         t.cursor, t.reading = 0, True
-        parent = Obj('Mp4Atom', {})
+        parent = Obj('Mp4Atom', {'tfhd': Opaque('tfhd')})
         return {'clz': Opaque('class:' + cls), 'src': t, 'parent': parent, 'self': env_after['self'], 'dest': t,
                 'kwargs': {'options': Obj('Options', {'debug': False, 'log': Opaque('log')}), 'initial_data': {}}}
     rt = roundtrip or ' and '.join(f"result['{f}'] == old(self.{f})" for f in names)
@@ -115,10 +115,37 @@ TFHD.witness_terms = lambda w: (lambda ev: {k: ev(z3.Int(k)) for k in ('version'
                                                                         'sample_description_index', 'default_sample_duration',
                                                                         'default_sample_size', 'default_sample_flags', 'moof_position')})
 
+TRUN_FLAGS = {'data_offset_present': 0x1, 'first_sample_flags_present': 0x4, 'sample_duration_present': 0x100,
+              'sample_size_present': 0x200, 'sample_flags_present': 0x400, 'sample_composition_time_offsets_present': 0x800}
+
+
+def trun_env(w, o):
+    o.f.update(TRUN_FLAGS)
+    o.f.update(sample_count=0, samples=PyList([]), data_offset=z3.Int('data_offset'),
+               first_sample_flags=z3.Int('first_sample_flags'))
+
+
+# trun header with an empty sample list (the sample loop is list-bearing: not covered). ISO/IEC 14496-12 defines
+# data_offset as a *signed* 32-bit integer and the parser reads it as one.
+TRUN = box_contract(
+    'TrackFragmentRunBox', [],
+    [('data_offset_int32', 'self.data_offset >= -2147483648 and self.data_offset < 2147483648'),
+     u32('first_sample_flags')],
+    extra_env=trun_env,
+    roundtrip=("result['version'] == old(self.version) and result['flags'] == old(self.flags) and result['sample_count'] == 0 and "
+               f"result['data_offset'] == (old(self.data_offset) if {has(1)} else 0) and "
+               f"result['first_sample_flags'] == (old(self.first_sample_flags) if {has(4)} else 0)"),
+)
+TRUN.modifies = ['self._first_field_pos']
+TRUN.mod_types = {}
+TRUN.witness_terms = lambda w: (lambda ev: {k: ev(z3.Int(k)) for k in ('version', 'flags', 'data_offset', 'first_sample_flags')})
+
 # inline helpers reached through self.encode_box_fields(dest)
 INLINE = [Contract(key=f'{MP4}:{cls}.encode_box_fields', props=[], inline=True)
           for cls in ('MovieFragmentHeaderBox', 'MovieExtendsHeaderBox', 'TrackExtendsBox', 'TrackFragmentDecodeTimeBox',
-                      'TrackFragmentHeaderBox')] + [Contract(key=f'{MP4}:FullBox.parse', props=[], inline=True)]
+                      'TrackFragmentHeaderBox', 'TrackFragmentRunBox')] + \
+         [Contract(key=f'{MP4}:FullBox.parse', props=[], inline=True),
+          Contract(key=f'{MP4}:TrackFragmentRunBox.output_box_fields', props=[], inline=True)]
 
 
 # ----------------------------------------------------------------------------- tfdt: 32 -> 64 bit switch (C02)
@@ -149,7 +176,7 @@ TFDT_SETATTR = Contract(
 
 GROUP = Group(
     name='mp4', world=world,
-    contracts=[MFHD, MEHD, TREX, TFDT, TFHD, TFDT_SETATTR] + INLINE,
+    contracts=[MFHD, MEHD, TREX, TFDT, TFHD, TRUN, TFDT_SETATTR] + INLINE,
     assumptions=[
         'C04: the repository helpers FieldWriter.write / FieldReader.read (dashlive/utils/fio) and struct.pack / unpack are '
         'modelled (pyvc/models/trace.py) for the codes B H I Q i q, 3I and fixed-size byte fields; they are not themselves verified',
